@@ -121,7 +121,7 @@ def _on_alarm(signum, frame):
     raise CaseTimeout()
 
 
-CASE_TIMEOUT_S = 6
+CASE_TIMEOUT_S = 10
 
 
 class Problem(Exception):
@@ -168,6 +168,15 @@ def check_doc(doc, defs_docs: dict, params: dict, check_rt=True):
             raise Problem("roundtrip", "JSONSchema.from_dict(doc) raised", {"exc": type(e).__name__, "msg": str(e)[:200]})
         if not deep_eq(back, doc):
             raise Problem("roundtrip", "JSONSchema.from_dict(d).to_dict() != d", {"back": repr(back)[:600], "doc": repr(doc)[:600]})
+
+
+def _check_root_ref(root, doc, params):
+    """all_refs in force (explicitly or as the dialect's default) and a dataclass root: the output is a reference"""
+    import dataclasses
+    import typing
+    origin = typing.get_origin(root) or root
+    if effective_all_refs(params) and isinstance(origin, type) and dataclasses.is_dataclass(origin) and "$ref" not in doc:
+        raise Problem("refs", "all_refs is in force but the dataclass root was emitted inline", {"keys": list(doc)[:6]})
 
 
 def run_case(case: dict) -> dict:
@@ -243,6 +252,7 @@ def _run_case(case: dict, params: dict, stats: dict) -> dict:
                         raise Problem("metaschema", "$schema is not the dialect uri", {"got": repr(doc.get("$schema"))})
                 if not effective_all_refs(params) and (refs_of(doc) or defs_docs):
                     raise Problem("refs", "references/definitions emitted although all_refs is off", {"refs": refs_of(doc)[:5]})
+                _check_root_ref(roots[0], doc, params)
                 check_doc(doc, defs_docs, params)
                 for nm, dd in defs_docs.items():
                     check_doc(dd, defs_docs, params)
@@ -293,6 +303,7 @@ def _run_case(case: dict, params: dict, stats: dict) -> dict:
                                           {"name": nm, "before": repr(dd)[:300], "after": repr(defs_docs[nm])[:300]})
                     if not effective_all_refs(params) and (refs_of(doc) or defs_docs):
                         raise Problem("refs", "references/definitions emitted although all_refs is off", {"refs": refs_of(doc)[:5]})
+                    _check_root_ref(root, doc, params)
                     docs.append(doc)
                     prev = defs_docs
                     check_doc(doc, defs_docs, params)
@@ -327,13 +338,13 @@ def classify(case: dict, res: dict) -> dict:
             kind = "final-type"
         elif exc == "TypeError" and "doesn't apply to a 'CC' object" in msg and last.get("slots_hit"):
             kind = "slots-descriptor-default"
-        elif exc == "SyntaxError" and last.get("omit_default_container"):
+        elif exc in ("SyntaxError", "NameError") and last.get("omit_default_container"):
             kind = "omit-default-repr-splice"
         elif exc == "ValueError" and msg.startswith("mutable default") and last.get("nt_mutable"):
             kind = "nt-mutable-default"
-        elif exc == "RecursionError" and last.get("cyclic") and not last.get("field_strategy_unannotated") and not last.get("field_override_container"):
+        elif exc in ("RecursionError", "CaseTimeout") and last.get("cyclic") and not last.get("field_strategy_unannotated") and not last.get("field_override_container"):
             kind = "recursive-class"
-        elif exc == "RecursionError" and last.get("field_strategy_unannotated") and not last.get("cyclic"):
+        elif exc in ("RecursionError", "CaseTimeout") and last.get("field_strategy_unannotated") and not last.get("cyclic"):
             kind = "field-strategy-unannotated"
         elif exc in ("RecursionError", "CaseTimeout") and last.get("field_override_container") and not last.get("cyclic"):
             kind = "field-override-container"
@@ -344,6 +355,13 @@ def classify(case: dict, res: dict) -> dict:
     elif res.get("clause") == "accumulate":
         if _clash_across(upto):
             kind = "defs-bare-name-clash"
+        else:
+            # the outer specialisation's type argument leaks into a nested generic dataclass field (H[int] holding G[str]
+            # renders G's T as int): the definition of G differs between the nested and the direct build
+            uses = [tuple(u) for f in upto for u in f.get("generic_uses", [])]
+            name = (res.get("detail") or {}).get("name")
+            if name in {g for g, _ in uses} and len({a for _, a in uses}) >= 2:
+                kind = "generic-typevar-leak"
     sig["kind"] = kind
     return sig
 
